@@ -83,3 +83,9 @@ fn vx_fold<I: Iterator, B, F: FnMut(B, I::Item) -> B>(it: I, init: B, f: F) -> (
         it.obeys_prophetic_iter_laws() ==> it.will_return_none()
             && exists|accs: Seq<B>| #[trigger] vx_fold_chain(it.remaining(), init, f, accs) && r == accs.last(),
 { it.fold(init, f) }
+
+// rustdoc Option::unwrap_unchecked: "Returns the contained Some value, consuming the self value, without checking that the
+// value is not None. Safety: Calling this method on None is undefined behavior."  (Hence `Some` is a PRECONDITION.)
+pub assume_specification<T> [Option::<T>::unwrap_unchecked] (o: Option<T>) -> (r: T)
+    requires o is Some,
+    ensures r == o->0;
